@@ -1,0 +1,21 @@
+//go:build verif
+
+package goja
+
+import "hash/maphash"
+
+// White-box accessors for the C06 (string representation) check. Add-only; compiled only with -tags verif.
+
+// VerifC06NewStringValue exposes newStringValue (string.go).
+func VerifC06NewStringValue(s string) String { return newStringValue(s) }
+
+// VerifC06KeyRoundTrip is stringValueFromRaw(v.string()): the property-key encoding round trip.
+func VerifC06KeyRoundTrip(v String) String { return stringValueFromRaw(v.string()) }
+
+// VerifC06Key returns the raw bytes of the unistring property key of v.
+func VerifC06Key(v String) string { return string(v.string()) }
+
+var verifC06Hasher maphash.Hash
+
+// VerifC06Hash returns v.hash() under one process-wide seed.
+func VerifC06Hash(v Value) uint64 { return v.hash(&verifC06Hasher) }
